@@ -486,6 +486,69 @@ Proof.
   rewrite Ha. destruct (N.leb_spec (len (f_payload f)) maxbuf); [lia|]. reflexivity.
 Qed.
 
+(* ---------------------------------------------------------------- reader-initiated messages and the real reply *)
+
+Lemma mem_register_mono : forall ids aw x, mem x aw = true -> mem x (register ids aw) = true.
+Proof.
+  unfold register. induction ids as [|i ids IH]; intros aw x H; cbn [fold_left]; [assumption|].
+  apply IH. destruct (mem i aw); [assumption|].
+  unfold mem in *. cbn [existsb]. rewrite H. apply orb_true_r.
+Qed.
+
+(* a frame of a type that is never looked up in c.awaiting is delivered to no caller and leaves
+   every awaiting entry in place *)
+Lemma exempt_frame_keeps_entries : forall st e f x,
+  never_reply cfg (f_typ f) = true ->
+  d_reply (expected_dispatch (s_aw st) e f) = None /\
+  (mem x (s_aw st) = true -> mem x (s_aw (state_next st e f)) = true).
+Proof.
+  intros st e f x Hn. unfold expected_dispatch, awaited, state_next, aw_next.
+  cbn [d_reply s_aw]. rewrite Hn. cbn [negb andb]. split; [reflexivity|].
+  apply mem_register_mono.
+Qed.
+
+Lemma exempt_frames_keep_entries : forall ris st env i x,
+  Forall (fun r => never_reply cfg (f_typ r) = true) ris ->
+  mem x (s_aw st) = true ->
+  Forall (fun d => d_reply d = None) (expected_log st env i ris) /\
+  mem x (s_aw (state_after st env i ris)) = true.
+Proof.
+  induction ris as [|r ris IH]; intros st env i x Hf Hm; cbn [expected_log state_after].
+  - split; [constructor|assumption].
+  - inversion Hf as [|? ? Hr Hrs]; subst.
+    destruct (exempt_frame_keeps_entries st (env i) r x Hr) as [Hd Hk].
+    destruct (IH (state_next st (env i) r) env (S i) x Hrs (Hk Hm)) as [Hl Hm'].
+    split; [constructor; assumption|assumption].
+Qed.
+
+(* a request with id (f_id f) is outstanding; the reader sends any number of frames of exempt
+   types (also with that very id), then the real reply f: none of the former is delivered to a
+   caller, f is — buffered byte for byte within the limit, header-only beyond it *)
+Lemma real_reply_after_exempt_frames : forall ris f st env rest,
+  Forall frame_wf (ris ++ [f]) ->
+  Forall (fun r => never_reply cfg (f_typ r) = true) ris ->
+  never_reply cfg (f_typ f) = false ->
+  mem (f_id f) (s_aw st) = true ->
+  exists l d tail,
+    r_log (serve maxbuf cfg st env (concat (map frame_bytes (ris ++ [f])) ++ rest)) = l ++ d :: tail /\
+    length l = length ris /\
+    Forall (fun x => d_reply x = None) l /\
+    d_hdr d = frame_header f /\
+    d_reply d = Some (if len (f_payload f) <=? maxbuf then RBuffered (f_payload f) else RHeaderOnly) /\
+    caller_exact true f d.
+Proof.
+  intros ris f st env rest Hwf Hex Hnf Hm.
+  rewrite serve_alignment by assumption. rewrite expected_log_app. cbn [expected_log].
+  destruct (exempt_frames_keep_entries ris st env O (f_id f) Hex Hm) as [Hl Hm'].
+  exists (expected_log st env O ris).
+  exists (expected_dispatch (s_aw (state_after st env O ris)) (env (0 + length ris)%nat) f).
+  eexists. unfold prepend. cbn [r_log]. split; [rewrite <- app_assoc; cbn [app]; reflexivity|].
+  split; [apply expected_log_length|]. split; [assumption|].
+  split; [reflexivity|]. split; [|apply expected_dispatch_caller_exact].
+  unfold expected_dispatch, awaited. cbn [d_reply]. rewrite Hnf. cbn [negb andb].
+  rewrite (mem_register_mono _ _ _ Hm'). reflexivity.
+Qed.
+
 End Spec.
 
 (* witness for the shortcut-first order of Message.data: limit 4, an awaited reply with 5
@@ -501,4 +564,21 @@ Lemma wit_nil_first_empty_success :
 Proof.
   cbv zeta. split; [constructor; vm_compute; reflexivity|].
   eexists. split; [vm_compute; reflexivity|]. vm_compute. repeat split; try reflexivity. discriminate.
+Qed.
+
+(* witness: ROAccessReport NOT exempt from the lookup.  Request 7 is outstanding; the reader
+   sends a report that happens to carry id 7, then the real reply (type 12): the report is
+   delivered to the caller and the real reply to nobody *)
+Lemma wit_report_not_exempt_steals_reply :
+  let cfg_bad := mkConfig (fun _ => false) true (fun t => (t =? 62) || (t =? 63)) in
+  let cfg_ok := mkConfig (fun _ => false) true reader_initiated in
+  let fs := [mkFrame 0 1 61 7 [9; 9]; mkFrame 0 1 12 7 [1; 2; 3]] in
+  let env := fun _ : nat => mkEnv [] (HRead 0) false in
+  Forall frame_wf fs /\
+  map d_reply (r_log (serve 100 cfg_bad (mkState [7] false) env (concat (map frame_bytes fs))))
+  = [Some (RBuffered [9; 9]); None] /\
+  map d_reply (r_log (serve 100 cfg_ok (mkState [7] false) env (concat (map frame_bytes fs))))
+  = [None; Some (RBuffered [1; 2; 3])].
+Proof.
+  cbv zeta. split; [repeat constructor; vm_compute; reflexivity|]. vm_compute. split; reflexivity.
 Qed.
